@@ -15,7 +15,8 @@ FILE_CHECKS = {'code.py': ['C19'], 'fst_get_slice.py': ['C07', 'C01'], 'fst_put_
                'fst_traverse.py': ['C14', 'C15', 'C16'], 'match.py': ['C17', 'C18'], 'reconcile.py': ['C13'], 'fst_options.py': ['C20', 'C12'],
                'view.py': ['C03'], 'fst_locs.py': ['C06'], 'fst_trivia.py': ['C04', 'C06']}
 SRC = Path('/repo/src/fst')
-out_path = Path('/verif/seeded') / f'mutants_{op}.json'
+out_path = Path(os.environ['MUT_OUT']) if os.environ.get('MUT_OUT') else (Path('/verif/seeded') / f'mutants_{op}.json' if not os.environ.get('MUT_CHECKS') else ROOT / 'seeded' / 'mutants' / f"{os.environ['MUT_CHECKS'].replace(',', '+')}_{op}.json")
+out_path.parent.mkdir(parents=True, exist_ok=True)
 results = json.loads(out_path.read_text()) if out_path.exists() else {}
 
 def sites(text):
